@@ -162,15 +162,15 @@ Definition LogInv (c : cfg) (s : st) : Prop :=
 (* ---------- the invariant holds initially and is preserved by every step ---------- *)
 Lemma inv_init c : valid c = true -> Inv c (init c).
 Proof.
-  destruct c as [ad mode stor k k2 cb cd]. unfold valid, init, rp, is_mts, is_mk, is_conv, is_mode, reg_prog, mk_prog, res_prog, is_mts.
+  destruct c as [ad mode stor k k2 cb cd]. unfold valid, init, rp, is_mk, is_conv, is_mode, reg_prog, mk_prog, res_prog.
   cbn [c_mode c_stor c_ad c_k2 c_cb c_k].
   intros V.
   destruct mode as [|[|[|[|m]]]]; try (cbn in V; rewrite ?andb_false_r in V; discriminate);
   destruct ad; try (cbn in V; rewrite ?andb_false_r in V; discriminate);
   destruct k2 as [kk|]; try (cbn in V; rewrite ?andb_false_r in V; discriminate);
-  destruct (Nat.eqb stor 4) eqn:ST; destruct (Nat.eqb cb 4) eqn:CB4;
+  destruct (Nat.eqb cb 4) eqn:CB4;
   try (cbn in V; rewrite ?CB4, ?andb_false_r in V; cbn in V; rewrite ?andb_false_r in V; discriminate);
-  destruct k; constructor; cbn; rewrite ?CB4, ?ST; cbn; try reflexivity; try lia; try congruence; try discriminate; try exact I;
+  destruct k; constructor; cbn; rewrite ?CB4; cbn; try reflexivity; try lia; try congruence; try discriminate; try exact I;
   try (left; reflexivity); try (right; reflexivity); try (split; discriminate); try (intros; discriminate);
   try (split; [lia|intros; try reflexivity; lia]);
   try (intros; reflexivity); try (intros; right; reflexivity); try (intros; lia); try (intros; congruence).
